@@ -362,6 +362,14 @@ func (s *Sim) buildUniverse() *SimChain {
 			}
 			tx.AddTxOut(&wire.TxOut{Value: val, PkScript: sc})
 		}
+		// further outputs behind the funding output (no new draw: older
+		// replay files stay valid), so that the transaction has an output at
+		// its own index in the block, at the index of the channel's other
+		// short-channel-id fields: whoever looks at the wrong output of the
+		// right transaction finds one, unspent
+		for e := 0; e < i%3+1; e++ {
+			tx.AddTxOut(&wire.TxOut{Value: int64(4000 + 10*e + i), PkScript: []byte{0x51}})
+		}
 		height := int32(startHeight - 10 + t.CfgDraw(8))
 		if c.kind == fundFuture {
 			height = int32(startHeight + 1 + t.CfgDraw(3))
